@@ -3,7 +3,7 @@
    [mk_screen rows arity ctrl tmap smap obs_given mask_given = Ok s] is "s can be constructed". *)
 From Coq Require Import ZArith List Bool.
 From Batchie Require Import Lib.Sexp Generated.Consts Model.Encode Model.Screen
-  Proofs.C01Encode Proofs.C01Screen Proofs.C01Props.
+  Proofs.C01Encode Proofs.C01Screen Proofs.C01Props Generated.SrcArith.
 Import ListNotations.
 Open Scope Z_scope.
 
@@ -11,6 +11,13 @@ Open Scope Z_scope.
 Theorem C01_sentinel_from_source : CONTROL_SENTINEL_VALUE = -1.
 Proof. exact sentinel_is_minus_one. Qed.
 Print Assumptions C01_sentinel_from_source.
+
+(* the model's control test is the source's: `dose_is_zero | treatment_is_control` with the
+   comparison operator of `dose_is_zero` translated from the source on every run *)
+Theorem C01_control_test_from_source : forall ctrl k,
+  is_control ctrl k = src_dose_is_control (snd k) || name_eqb (fst k) ctrl.
+Proof. intros ctrl k. reflexivity. Qed.
+Print Assumptions C01_control_test_from_source.
 
 (* every experiment's stored treatment id is the mapping's id of exactly that (name, dose) *)
 Theorem C01_decode_treatments : forall rows a ctrl tm sm og mg s,
